@@ -111,5 +111,6 @@ def build_duck_spec(s):
     full.update(nu=nu, gam=gam, g=g,
                 pressures=rng.uniform(-1e-2, 1e-2, size=(nt, s["ntv"])),
                 static_p=rng.uniform(-1e-2, 1e-2, size=(s["ntv"],)),
-                cv=10.0 ** rng.uniform(-8, -2, size=(nt, s["ntv"])))
+                # any positive field: down to the 1e-14 Ry/K of a small cell on a low-temperature row
+                cv=10.0 ** rng.uniform(-14 if s["seed"] % 3 == 0 else -8, -2, size=(nt, s["ntv"])))
     return full
